@@ -230,7 +230,8 @@ pub fn valid_streams(thorough: bool) -> Vec<ValidStream> {
 
 /// fqzcomp decoding costs >= 25 ms per call (model tables): its valid streams get the six-value alphabet in both tiers.
 fn stream_n_sub(s: &ValidStream, n_sub: u64) -> u64 {
-    if s.codec == Codec::Fqzcomp { 6 } else { n_sub }
+    // the name tokenizer loops for ~30 s on a corrupted name count (every such case costs the 2 s CPU deadline)
+    if matches!(s.codec, Codec::Fqzcomp | Codec::NameTokenizer) { 6 } else { n_sub }
 }
 
 pub fn hex(s: &str) -> Vec<u8> {
